@@ -150,6 +150,24 @@ def run(ctx, res):
         poms.append({'preds': [tmap('const', EX + 'p/t')], 'objs': [{'m': tmap('templ', 'x{v}y', 'iri', 'lit'), 'lang': None, 'dt': None, 'joins': []}], 'graphs': []})
         cases.append({'cfg': {'nquads': False, 'mode': 'NO'}, 'sources': [{'key': 'S0', 'kind': ctx.rng.choice(['csv', 'ssv', 'ssv', 'tsv']), 'cols': ['id', 'v', 'w'], 'rows': rows}],
                       'doc': [{'id': EX + 'tm/T', 'src': 'S0', 'nonasserted': False, 'subj': tmap('templ', EX + 'r/{id}'), 'sjoins': [], 'classes': [], 'sgraphs': [], 'poms': poms}]})
+    # directed: ONE cell read by a literal under a canonicalised datatype AND by another term map of the same rule / of a rule quoting it (a graph template under
+    # N-QUADS; the object of a triples map that quotes the first one, under a datatype that is not canonicalised): the second use must see the source text
+    def tmap2(k, v, ck='iri', tt=''):
+        return {'k': k, 'v': v, 'ck': ck, 'tt': tt}
+    CANON = [('integer', ['12.0', '7', '3.0', '0042']), ('boolean', ['TRUE', 'False', 'true', 'T']), ('dateTime', ['2020-01-01 10:00:00', '2021-05-05 00:00:00.5', '2020-01-01T10:00:00'])]
+    for di in range(ctx.scale(6, 36)):
+        dtn, vals = CANON[di % 3]
+        rows = [[str(i + 1), vals[(i + di) % len(vals)], 'z'] for i in range(2 + di % 3)]
+        typed = {'preds': [tmap2('const', EX + 'p/c')], 'objs': [{'m': tmap2('ref', 'v'), 'lang': None, 'dt': tmap2('const', XSD + dtn), 'joins': []}], 'graphs': []}
+        t0 = {'id': EX + 'tm/Q0', 'src': 'S0', 'nonasserted': False, 'subj': tmap2('templ', EX + 'r/{id}'), 'sjoins': [], 'classes': [], 'sgraphs': [], 'poms': [typed]}
+        doc = [t0]
+        if (di // 3) % 2 == 0:
+            typed['graphs'] = [tmap2('templ', EX + 'g/{v}')]
+        else:
+            other = [tmap2('const', XSD + 'decimal'), tmap2('const', EX + 'dt/rawCell'), None][(di // 6) % 3]
+            doc.append({'id': EX + 'tm/Q1', 'src': 'S0', 'nonasserted': False, 'subj': tmap2('quoted', t0['id']), 'sjoins': [], 'classes': [], 'sgraphs': [],
+                        'poms': [{'preds': [tmap2('const', EX + 'p/raw')], 'objs': [{'m': tmap2('ref', 'v'), 'lang': None, 'dt': other, 'joins': []}], 'graphs': []}]})
+        cases.append({'cfg': {'nquads': True, 'mode': ['NO', 'PARTIAL-AGGREGATIONS', 'MAXIMAL'][di % 3]}, 'sources': [{'key': 'S0', 'kind': 'csv', 'cols': ['id', 'v', 'w'], 'rows': rows}], 'doc': doc})
     family.run_family(ctx, res, cases, lambda c: {'file-kind:' + c['sources'][0]['kind']})
     res.samples = [{'datatype': XSD + 'integer', 'form': f} for f in forms[:6]]
 
